@@ -69,6 +69,22 @@ func ClassEvents(side, class string) []string {
 type probe struct {
 	Method, URL string
 	Want        int
+	Tmpl        string
+}
+
+// tryLockWait waits (generously) for the locks to become free: goroutines the request woke may hold them briefly.
+func tryLockWait(x instance, wd time.Duration) (bool, string) {
+	deadline := time.Now().Add(wd)
+	for {
+		ok, which := x.tryLock()
+		if ok {
+			return true, ""
+		}
+		if time.Now().After(deadline) {
+			return false, which
+		}
+		time.Sleep(200 * time.Microsecond)
+	}
 }
 
 // instance is one server behind its real router.
@@ -76,6 +92,7 @@ type instance interface {
 	router() http.Handler
 	quiesce() []kernel.Violation // wait for goroutines the request woke; deliver internal events; "wedged" violations
 	tryLock() (bool, string)     // every lock of the server object is free
+	tryLockWait(wd time.Duration) (bool, string)
 	key() (string, string)
 	facts() Facts
 	state() string // replica: Status() state; controller: summary used only for reporting
@@ -315,8 +332,11 @@ func (x *rInst) tryLock() (bool, string) {
 	return true, ""
 }
 
+func (x *rInst) tryLockWait(wd time.Duration) (bool, string) { return tryLockWait(x, wd) }
+func (x *cInst) tryLockWait(wd time.Duration) (bool, string) { return tryLockWait(x, wd) }
+
 func (x *rInst) probes() []probe {
-	return []probe{{"GET", "/v1/replicas/1", 200}, {"GET", "/v1/replicas", 200}, {"GET", "/v1/stats", 200}, {"GET", "/ping", 200}}
+	return []probe{{"GET", "/v1/replicas/1", 200, "/v1/replicas/{id}"}, {"GET", "/v1/replicas", 200, "/v1/replicas"}, {"GET", "/v1/stats", 200, "/v1/stats"}, {"GET", "/ping", 200, "/ping"}}
 }
 
 func (x *rInst) readProbe() (bool, error) {
@@ -588,10 +608,10 @@ func (x *cInst) state() string {
 }
 
 func (x *cInst) probes() []probe {
-	ps := []probe{{"GET", "/v1/replicas", 200}, {"GET", "/v1/volumes", 200}, {"GET", "/v1/volumes/" + b64("vol"), 200}, {"GET", "/v1/checkpoint", 200}}
+	ps := []probe{{"GET", "/v1/replicas", 200, "/v1/replicas"}, {"GET", "/v1/volumes", 200, "/v1/volumes"}, {"GET", "/v1/volumes/" + b64("vol"), 200, "/v1/volumes/{id}"}, {"GET", "/v1/checkpoint", 200, "/v1/checkpoint"}}
 	v := x.cl.View()
 	if len(v.Replicas) > 0 {
-		ps = append(ps, probe{"GET", "/v1/replicas/" + b64(v.Replicas[0].Address), 200})
+		ps = append(ps, probe{"GET", "/v1/replicas/" + b64(v.Replicas[0].Address), 200, "/v1/replicas/{id}"})
 	}
 	return ps
 }
